@@ -77,8 +77,9 @@ the need for it, and the former counterexample is now a positive example below.)
 (any number of positionals, any keywords) that the form accepts, the overload accepts the call, the
 call that reaches the real builtin is accepted by the same form, and the builtin's parameters are
 bound to the same argument values (`zip`'s `strict` up to its truth value, which is all `zip` reads).
-Remaining hypothesis `userShape`: user code cannot name the `UNSPECIFIED` sentinel. -/
-theorem C14_forward (truthy : α → Bool) (b : String) (hb : b ∈ supportedBuiltins)
+`_partial` only because of `userShape`: user code cannot name the `UNSPECIFIED` sentinel (without it
+the statement is false, see the `range(1, UNSPECIFIED)` example below). -/
+theorem C14_forward_partial (truthy : α → Bool) (b : String) (hb : b ∈ supportedBuiltins)
     (form : Signature) (hf : form ∈ spec b) (c : CallShape α) (hu : userShape c = true)
     (env : Env α) (hacc : bind form c = .ok env) :
     ∃ r env', forward truthy b c = .ok r ∧ r.callee = b ∧ bind form r.call = .ok env' ∧
@@ -145,25 +146,25 @@ example : forward (fun _ : Nat => true) "enumerate" ⟨[], [("iterable", .arg 7)
 
 /-- Accepted calls never fail inside the library: any exception the caller sees is raised by the
 real builtin on the forwarded (equivalent) arguments — hence has the builtin's own type. -/
-theorem C14_errors (truthy : α → Bool) (b : String) (hb : b ∈ supportedBuiltins)
+theorem C14_errors_partial (truthy : α → Bool) (b : String) (hb : b ∈ supportedBuiltins)
     (form : Signature) (hf : form ∈ spec b) (c : CallShape α) (hu : userShape c = true)
     (hacc : accepts form c = true) :
     ∀ e, forward truthy b c ≠ .error e := by
   intro e he
-  obtain ⟨r, _, h1, _⟩ := C14_forward truthy b hb form hf c hu _ (bind_of_accepts hacc)
+  obtain ⟨r, _, h1, _⟩ := C14_forward_partial truthy b hb form hf c hu _ (bind_of_accepts hacc)
   rw [he] at h1; cases h1
 
 /-- For ANY behaviour `sem` of the real builtins that depends only on how their parameters are
 bound (up to what the builtin can observe), calling the substitute gives the same outcome as
 calling the builtin: same value / lazy object / output / exception. -/
-theorem C14_same_outcome {Out : Type} (truthy : α → Bool) (sem : String → Env α → Out)
+theorem C14_same_outcome_partial {Out : Type} (truthy : α → Bool) (sem : String → Env α → Out)
     (typeError : Out) (raise : FwdErr → Out)
     (hsem : ∀ b e e', envEquiv truthy b e e' = true → sem b e = sem b e')
     (b : String) (hb : b ∈ supportedBuiltins) (form : Signature) (hf : form ∈ spec b)
     (c : CallShape α) (hu : userShape c = true) (hacc : accepts form c = true) :
     runOverload truthy sem typeError raise b form c = runBuiltin (sem b) typeError form c := by
   obtain ⟨r, env', h1, h2, h3, h4⟩ :=
-    C14_forward truthy b hb form hf c hu _ (bind_of_accepts hacc)
+    C14_forward_partial truthy b hb form hf c hu _ (bind_of_accepts hacc)
   simp only [runOverload, runBuiltin, h1, h2, h3, bind_of_accepts hacc]
   exact (hsem b _ _ h4).symm
 
